@@ -20,7 +20,7 @@ def ob_cf_equiv():
         c = load_crate(CRATE)
         dom = BV()
         def run(ctx):
-            ex = Ex(c, dom, ctx)
+            ex = Ex(c, dom, ctx); ex.merge_pure = True
             v = [dom.sym("v%d" % i, "u32") for i in range(8)]
             # the 512-bit block as 16 word variables; byte k of word j is an extract (bijection with 64 free bytes)
             W = [z3.BitVec("W%d" % i, 32) for i in range(16)]
@@ -69,7 +69,7 @@ def ob_hash_len(L, real_cf=False):
         c = load_crate(CRATE)
         dom = BV()
         def run(ctx):
-            ex = Ex(c, dom, ctx, summaries={} if real_cf else {"cf": cf_summary(dom)})
+            ex = Ex(c, dom, ctx, summaries={} if real_cf else {"cf": cf_summary(dom)}); ex.merge_pure = True
             m = sym_bytes(dom, "m", L)
             cell = Cell(Agg(list(m), name="array"), "msg")
             out = ex.run_fn(c.find("sm3_hash"), [Ref(cell, (), (0, L))])
@@ -104,7 +104,7 @@ def ob_validate_translator():
         for msg in vecs:
             dom = BV()
             ctx = Ctx()
-            ex = Ex(c, dom, ctx)
+            ex = Ex(c, dom, ctx); ex.merge_pure = True
             cell = Cell(Agg([Sc(b, "u8") for b in msg], name="array"), "msg")
             out = ex.run_fn(c.find("sm3_hash"), [Ref(cell, (), (0, len(msg)))])
             got = bytes(x.v for x in out.f)
